@@ -39,6 +39,46 @@ def translate(make_top, backend, outdir, pre_translate=None):
   finally:
     os.chdir(cwd)
 
+def translate_multi(mod, backend, outdir, only=None):
+  """ONE application of the translation pass to a design whose top is not translated itself but has several
+  translation-enabled children (only=None), or to one of these sub-trees as a top of its own (only=<child name>).
+  Returns {child name: {'module': translated_top_module, 'file': basename of translated_filename, 'text': file text}}"""
+  from pymtl3.passes.backends.verilog import VerilogPlaceholderPass
+  P = backend_pass(backend)
+  os.makedirs(outdir, exist_ok=True)
+  cwd = os.getcwd()
+  os.chdir(outdir)
+  try:
+    if only is None:
+      top = mod.make_top(); top.elaborate()
+      subs = mod.prepare(top, P, VerilogPlaceholderPass)
+    else:
+      top = mod.make_alone(only); top.elaborate()
+      subs = mod.prepare_alone(top, P, VerilogPlaceholderPass, only)
+    top.apply(P())
+    res = {}
+    for name, c in subs:
+      fn = c.get_metadata(P.translated_filename)
+      with open(fn) as f: text = f.read()
+      res[name] = {'module': c.get_metadata(P.translated_top_module), 'file': os.path.basename(fn), 'text': text}
+    return res
+  finally:
+    os.chdir(cwd)
+
+def run_multi_job(job):
+  """job['multi'] = [{'module', 'uid', 'only'}]: each entry is one pass application"""
+  setup_path(job['designs_dir'])
+  out = {}
+  for d in job['multi']:
+    mod = importlib.import_module(d['module'])
+    for b in job['backends']:
+      key = f"{d['uid']}|{d['only'] or ''}|{b}"
+      try:
+        out[key] = translate_multi(mod, b, os.path.join(job['outdir'], str(d['uid']), b), d['only'])
+      except Exception as e:
+        out[key] = {'error': f'{type(e).__name__}: {str(e)[:400]}'}
+  return out
+
 def run_job(job):
   setup_path(job['designs_dir'])
   out = {}
@@ -64,7 +104,7 @@ def run_job(job):
 if __name__ == '__main__':
   job = json.load(open(sys.argv[1]))
   try:
-    out = run_job(job)
+    out = run_multi_job(job) if 'multi' in job else run_job(job)
   except Exception:
     traceback.print_exc()
     sys.exit(3)
